@@ -68,6 +68,18 @@ func TestVerifBounded(t *testing.T) {
 			zzGuard(t, "LoadProgramFile(.wa)", src, func() { LoadProgramFile(DefaultConfig(), "a.wa", src) })
 		}
 	})
+	// a wider token alphabet at a smaller length
+	waWide := []string{"func", "global", "const", "var", "type", "struct", "interface", "map", "if", "else", "for", "range", "return", "break", "switch", "case", "default", "defer", "import", "this", "x", "T", "1", "0x", "1e", "1.5", "\"s\"", "'c'", "`r`", "{", "}", "(", ")", "[", "]", ":", ":=", "=", "=>", ",", ".", "...", "+", "-", "*", "&", "!", "<-", ";", "\n", "//c\n", "/*", "#wa:build x\n"}
+	cases += zzSeqs(waWide, nWa-1, func(src string) {
+		zzGuard(t, "FormatCode(.wa)", src, func() { FormatCode("a.wa", src) })
+		if strings.Count(src, " ") < nCheck-1 {
+			zzGuard(t, "LoadProgramFile(.wa)", src, func() { LoadProgramFile(DefaultConfig(), "a.wa", src) })
+		}
+	})
+	watWide := []string{"(", ")", "module", "func", "$f", "$g", "param", "result", "local", "i32", "i64", "f32", "f64", "call", "call_indirect", "i32.const", "i32.add", "local.get", "global", "mut", "1", "-1", "0x", "export", "import", "\"e\"", "table", "funcref", "elem", "memory", "data", "start", "type", "if", "else", "then", "block", "loop", "br", "br_if", "end", "return", "table.set", ";;c\n", "(;"}
+	cases += zzSeqs(watWide, nWat-1, func(src string) {
+		zzGuard(t, "wat ParseModule", src, func() { wparser.ParseModule("a.wat", []byte(src)) })
+	})
 	wz := []string{"函数", "主控", "：", "。", "完毕", "（", "）", "x", "1", "若", "则", "引入", "\n"}
 	cases += zzSeqs(wz, nWa-1, func(src string) {
 		zzGuard(t, "FormatCode(.wz)", src, func() { FormatCode("a.wz", src) })
@@ -86,5 +98,5 @@ func TestVerifBounded(t *testing.T) {
 			zzGuard(t, "native ParseFile", src, func() { nparser.ParseFile(cpu, ntoken.NewFileSet(), "a.s", []byte(src)) })
 		})
 	}
-	fmt.Printf("BOUNDED {\"cases\": %d, \"bound\": \"token sequences of length <= %d (.wa: 19 tokens; .wz: 13 tokens, length <= %d), <= %d (WAT, 19 tokens), <= %d (native assembly, 14 tokens, 2 CPUs); type checking (LoadProgramFile) for sequences of <= %d tokens; no panic, each call returns within 10 s\"}\n", cases, nWa, nWa-1, nWat, nAsm, nCheck)
+	fmt.Printf("BOUNDED {\"cases\": %d, \"bound\": \"token sequences of length <= %d (.wa: 19 tokens; .wz: 13 tokens, length <= %d), <= %d (WAT, 19 tokens), <= %d (native assembly, 14 tokens, 2 CPUs); plus wider alphabets (.wa 53 tokens, WAT 45 tokens) one token shorter; type checking (LoadProgramFile) for sequences of <= %d tokens; no panic, each call returns within 10 s\"}\n", cases, nWa, nWa-1, nWat, nAsm, nCheck)
 }
